@@ -254,6 +254,22 @@ func raceScenarios() []raceScenario {
 		vsched.Go("closer", func() { t.w.Svr.Close() })
 		vsched.Quiesce()
 	}, false})
+	// (v') the same with a publisher that has a will: Server.Close stops it from another
+	// goroutine (and publishes its will) while its own processor may be in a fan-out
+	out = append(out, raceScenario{"Server.Close || publish by a connection with a will", func() {
+		t := newTD()
+		t.connect("S", 0, 65535, false)
+		t.subscribe("S", "h", 0)
+		t.subscribe("S", "will/p", 0)
+		p := t.connect("P", 0, 65535, true)
+		if vsched.Failed() {
+			return
+		}
+		vsched.Mark()
+		p.rc.Conn.Write(refcodec.Encode(&refcodec.Packet{Type: refcodec.PUBLISH, Topic: []byte("h"), Payload: []byte("bye")}))
+		vsched.Go("closer", func() { t.w.Svr.Close() })
+		vsched.Quiesce()
+	}, true})
 	// (viii) a connection is cut and its successor with the same client id connects at
 	// once (persistent session, so both share the session object for a moment)
 	out = append(out, raceScenario{"cut || successor resumes the session", func() {
